@@ -110,11 +110,11 @@ def run(ck):
     # the real `jug execute` command (exit status, barrier passes, cleanup --failed-only) in subprocesses on a file store
     b.flush()
     from . import execproc
-    execproc.failure_runs(ck, ck.n(6, 60))
+    execproc.failure_runs(ck, ck.n(8, 60))
 
 
 def replay(obj):
-    if obj.get('kind') == 'process-run':
+    if obj.get('kind') == 'process-run' or obj.get('kind2') == 'process-run':
         from . import execproc
         return execproc.replay(obj)
     return X.replay_scenario(obj, ORACLES)
